@@ -103,21 +103,24 @@ class Executor:
         return obs
 
     def _run(self, text, fresh=False, timeout=None):
+        self.ncases = getattr(self, "ncases", 0) + 1
+        if self.ncases > int(os.environ.get("VERIF_RESPAWN_EVERY", "3000")):
+            fresh = True
         if fresh or self.p is None or self.p.poll() is not None:
             self._spawn()
+            self.ncases = 1
         timeout = timeout or CASE_TIMEOUT
         data = text.encode("latin-1")
         if not data.endswith(b"\n"):
             data += b"\n"
         data += b"end\n"
         lines = []
-        try:
-            self.p.stdin.write(data)
-            self.p.stdin.flush()
-        except (BrokenPipeError, OSError):
-            pass
         deadline = time.time() + timeout
-        fd = self.p.stdout.fileno()
+        rfd = self.p.stdout.fileno()
+        wfd = self.p.stdin.fileno()
+        os.set_blocking(wfd, False)
+        off = 0
+        # interleave writing the case and reading the answer: neither side may block on a full pipe
         while True:
             nl = self.buf.find(b"\n")
             if nl >= 0:
@@ -132,10 +135,18 @@ class Executor:
                 lines.append("HANG")
                 self.close()
                 return lines
-            r, _, _ = select.select([fd], [], [], min(left, 1.0))
+            wl = [wfd] if off < len(data) else []
+            r, w, _ = select.select([rfd], wl, [], min(left, 1.0))
+            if w:
+                try:
+                    off += os.write(wfd, data[off:off + 65536])
+                except BlockingIOError:
+                    pass
+                except (BrokenPipeError, OSError):
+                    off = len(data)
             if not r:
                 continue
-            chunk = os.read(fd, 65536)
+            chunk = os.read(rfd, 65536)
             if not chunk:
                 rc = self.p.wait()
                 err = self._stderr_tail()
